@@ -1,6 +1,7 @@
 package main
 
 import (
+	"fmt"
 	"go/types"
 	"math/big"
 
@@ -148,7 +149,34 @@ func (ex *Exec) bitop(op string, a, b *smt.Term, t types.Type) (*smt.Term, bool)
 	} else if uns && bitsOf(t) <= 16 {
 		width = bitsOf(t)
 	}
+	if _, declared := ex.bitsFor(t); declared && width > 0 && (op == "&" || op == "|" || op == "^" || op == "&^") {
+		if _, forced := ex.bitsDecl["!force"]; !forced {
+			// declared bit width: compute in bit-vectors, bridge with int2bv/bv2nat (exact when both operands fit)
+			bs := smt.BVSort(int(width))
+			i2b := fmt.Sprintf("(_ int2bv %d)", width)
+			x, y := c.App(i2b, bs, a), c.App(i2b, bs, b)
+			var r *smt.Term
+			switch op {
+			case "&":
+				r = c.App("bvand", bs, x, y)
+			case "|":
+				r = c.App("bvor", bs, x, y)
+			case "^":
+				r = c.App("bvxor", bs, x, y)
+			case "&^":
+				r = c.App("bvand", bs, x, c.App("bvnot", bs, y))
+			}
+			res := c.App("bv2nat", smt.Int, r)
+			lim := c.BigLit(pow2(width))
+			in := c.And(c.Le(c.IntLit(0), a), c.Lt(a, lim), c.Le(c.IntLit(0), b), c.Lt(b, lim))
+			other := c.Fresh("bitop", smt.Int)
+			return c.Ite(in, res, other), true
+		}
+	}
 	if width > 0 && (op == "&" || op == "|" || op == "^" || op == "&^") {
+		_, declared := ex.bitsFor(t)
+		_, forced := ex.bitsDecl["!force"]
+		guardRange := declared && !forced && !(uns && bitsOf(t) <= 16)
 		res := c.IntLit(0)
 		for i := uint(0); i < width; i++ {
 			x, y := ex.bit(a, i), ex.bit(b, i)
@@ -164,6 +192,13 @@ func (ex *Exec) bitop(op string, a, b *smt.Term, t types.Type) (*smt.Term, bool)
 				r = c.And(x, c.Not(y))
 			}
 			res = c.Add(res, c.Ite(r, c.BigLit(pow2(i)), c.IntLit(0)))
+		}
+		if guardRange {
+			// declared width on a wider type: exact only when both operands fit; otherwise unconstrained
+			lim := c.BigLit(pow2(width))
+			in := c.And(c.Le(c.IntLit(0), a), c.Lt(a, lim), c.Le(c.IntLit(0), b), c.Lt(b, lim))
+			other := c.Fresh("bitop", smt.Int)
+			return c.Ite(in, res, other), true
 		}
 		return res, true
 	}
